@@ -34,13 +34,13 @@ Proof.
   { intros a o Ho. simpl. now rewrite (proj1 (F04_cls alts l a o HF Ho)). }
   destruct (wf_walk_iso (P_todao alts) l r (fun _ _ _ => eq_refl) Hc1 Hwf) as [d [s1 [E1 [I1 [M1 [D1 Iso1]]]]]].
   rewrite E1. unfold from_dao.
-  pose proof (result_closed (P_todao alts) (heap_of l) s1 I1 D1) as Hcl2.
+  pose proof (result_closed (P_todao alts) (heap_of l) _ s1 I1 D1) as Hcl2.
   assert (Hl2 : forall y ob, dst s1 y = Some ob -> p_late (P_fromdao alts) (p_cmap (P_fromdao alts) (ocls ob)) = None).
-  { intros y ob Hy. simpl. destruct I1 as [_ [_ [_ J4]]]. destruct (J4 _ _ Hy) as [x [o [Ho Hcls]]].
+  { intros y ob Hy. simpl. destruct I1 as [_ [_ [_ [J4 _]]]]. destruct (J4 _ _ Hy) as [x [o [Ho Hcls]]].
     rewrite Hcls, (Hc1 _ _ Ho). exact (proj2 (F04_cls alts l x o HF Ho)). }
   assert (Hd : In d (seq 0 (nxt s1))).
   { apply in_seq. destruct I1 as [J1 _]. specialize (J1 _ _ M1). lia. }
-  destruct (walk_iso (P_fromdao alts) (dst s1) (seq 0 (nxt s1)) Hcl2 Hl2 (fun _ _ _ => eq_refl) d Hd)
+  destruct (walk_iso (P_fromdao alts) (dst s1) (seq 0 (nxt s1)) (fun a => In a (seq 0 (nxt s1))) Hcl2 (fun a H => H) Hl2 (fun _ _ _ => eq_refl) d Hd)
     as [r' [s2 [E2 [I2 [M2 [D2 Iso2]]]]]].
   rewrite seq_length in E2. exists r', s2. split; [exact E2|].
   apply iso_sym. eapply iso_trans; eauto.
